@@ -722,6 +722,27 @@ func (w *World) CheckSweep(out *Outcome, runs []*Obs) []Violation {
 			}
 		}
 	}
+	// what a component-factory hook finds registered does not depend on the order in which the
+	// registry lists the components (compared across the runs that got that far)
+	{
+		var ref *Obs
+		for _, o := range runs {
+			if len(o.FactorySeen) == 0 {
+				continue
+			}
+			if ref == nil {
+				ref = o
+				continue
+			}
+			for _, id := range sdl.SortedKeys(o.FactorySeen) {
+				a, okA := ref.FactorySeen[id]
+				b := o.FactorySeen[id]
+				if okA && a != b && a != [2]int{} && b != [2]int{} {
+					vs = append(vs, v("C10", "factory-hook-sees-a-different-registry", id, fmt.Sprintf("the component-factory hook of %s found %d registered components / %d definition scanners in run %s and %d / %d in run %s", id, a[0], a[1], label(ref), b[0], b[1], label(o))))
+				}
+			}
+		}
+	}
 	// (3) non-tied points hold the same component in all successful runs
 	var ref *Obs
 	for _, o := range runs {
